@@ -70,7 +70,7 @@ fn case(c: &Case, rec: &mut Rec) {
             let dx = (&a.vapor().molefracs - &r.vapor().molefracs).iter().chain((&a.liquid().molefracs - &r.liquid().molefracs).iter()).fold(0.0f64, |m, v| m.max(v.abs()));
             dp.max(dx)
         };
-        for (oname, opts, band) in [("inner_tol=1e-2", (so(Some(1e-2), None), so(None, None)), 1e-7), ("inner_tol=1e-4", (so(Some(1e-4), None), so(None, None)), 1e-7), ("inner_iter=1", (so(None, Some(1)), so(None, None)), 1e-7), ("outer_tol=1e-5", (so(None, None), so(Some(1e-5), None)), 1e-3)] {
+        for (oname, opts, band) in [("inner_tol=1e-2", (so(Some(1e-2), None), so(None, None)), 1e-6), ("inner_tol=1e-4", (so(Some(1e-4), None), so(None, None)), 1e-6), ("inner_iter=1", (so(None, Some(1)), so(None, None)), 1e-6), ("outer_tol=1e-5", (so(None, None), so(Some(1e-5), None)), 1e-3)] {
             for (name, reference, bubble) in [("bubble", b, true), ("dew", d, false)] {
                 let r = if bubble { PhaseEquilibrium::bubble_point(eos, t, &xs, None, None, opts) } else { PhaseEquilibrium::dew_point(eos, t, &xs, None, None, opts) };
                 match r {
@@ -101,7 +101,7 @@ fn case(c: &Case, rec: &mut Rec) {
                 let spec_phase = if spec_liquid { v.liquid() } else { v.vapor() };
                 rec.require("spec_exact", &format!("{name}|x"), (spec_phase.molefracs[0] - c.x).abs() <= 1e-15, || "specified composition changed".into());
                 let ep = ((spec_phase.pressure(Contributions::Total) - p) / p).into_value().abs();
-                rec.check("spec_exact", &format!("{name}|p"), ep / 1e-9, true, || format!("{name}: pressure of the specified phase off by {ep:e}"));
+                rec.check("spec_exact", &format!("{name}|p"), ep / 1e-8, true, || format!("{name}: pressure of the specified phase off by {ep:e}"));
             }
             Err(_) => rec.skip("bubble/dew at given pressure fails (conditional)"),
         }
@@ -285,8 +285,8 @@ pub fn run(ctx: &mut Ctx) {
     let ps = pairs(tier, 1.8);
     let mut cases = vec![];
     for p in &ps {
-        for tr in TRS {
-            for x in XS {
+        for tr in trs(tier) {
+            for x in xs_lattice(tier) {
                 cases.push(Case { pair: p.clone(), tr, x });
             }
         }
@@ -340,6 +340,6 @@ pub fn run(ctx: &mut Ctx) {
     // partially miscible system
     let lle: Vec<(String, M)> = vec![("pcsaft:water+hexane".into(), std::sync::Arc::new(feos::ResidualModel::PcSaft(feos::pcsaft::PcSaft::new(zoo::pcsaft_params(&[(&["water"], "gross2002"), (&["hexane"], "gross2001")])))))];
     ctx.run(&lle, |c| format!("lle|{}", c.0), lle_case);
-    ctx.rule = format!("all unordered pairs of the 51 hydrocarbon records of gross2001 with T_c ratio < 1.8 ({} pairs{}; success clause for ratio < 1.5) x T in Tc_low x {:?} x x in {:?} x {{bubble(T), dew(T), bubble(p), dew(p), tp_flash at {:?} of the way from dew to bubble pressure, each flash also warm-started from that equilibrium at (T(1 +- 0.003), p(1 +- 0.01)) through both entry points, bubble/dew points with 4 non-default (inner, outer) option pairs}}; binary_vle (sub- and supercritical), bubble_point_line, dew_point_line on a pair subset; gc-PC-SAFT, SAFT-VR Mie, PR, PeTS, associating and ternary systems; water+hexane LLE flash, heteroazeotrope, lle diagram: conditions whenever Ok. Oracles: common T (exact), common p (1e-6), x_i phi_i equal (1e-5), phases distinct, specified composition/T/p echoed, p_bub >= p_dew, material balance 1e-12, feed between phase compositions, non-default inner options do not change the answer (1e-7), isobaric lle diagram on its temperature grid", ps.len(), if tier == Tier::Quick { ", every 16th" } else { "" }, TRS, XS, WS);
+    ctx.rule = format!("all unordered pairs of the 51 hydrocarbon records of gross2001 with T_c ratio < 1.8 ({} pairs{}; success clause for ratio < 1.5) x T in Tc_low x {:?} x x in {:?} x {{bubble(T), dew(T), bubble(p), dew(p), tp_flash at {:?} of the way from dew to bubble pressure, each flash also warm-started from that equilibrium at (T(1 +- 0.003), p(1 +- 0.01)) through both entry points, bubble/dew points with 4 non-default (inner, outer) option pairs}}; binary_vle (sub- and supercritical), bubble_point_line, dew_point_line on a pair subset; gc-PC-SAFT, SAFT-VR Mie, PR, PeTS, associating and ternary systems; water+hexane LLE flash, heteroazeotrope, lle diagram: conditions whenever Ok. Oracles: common T (exact), common p (1e-6), x_i phi_i equal (1e-5), phases distinct, specified composition/T/p echoed, p_bub >= p_dew, material balance 1e-12, feed between phase compositions, non-default inner options do not change the answer (1e-6), isobaric lle diagram on its temperature grid", ps.len(), if tier == Tier::Quick { ", every 16th" } else { "" }, TRS, XS, WS);
     ctx.assume("(T, x, pressure fraction) lattice; initial-guess dependence is C12's");
 }
